@@ -372,6 +372,24 @@ func genBroker(p brokerProfile, seed int64, n int, tier string, w *bufio.Writer)
 				g.emit("pkt %d disconnect", c.id)
 				g.remove(c)
 			case pickW(p.wClose):
+				if r.Intn(4) == 0 {
+					// the client's last packets and its close arrive together: a burst of publishes, half
+					// of the time with a DISCONNECT at the end (then no will), the socket closed behind them
+					var data []byte
+					// (QoS 0 only: a QoS 1 PUBLISH whose PUBACK can no longer be written - the sender
+					// goroutine ends with the socket - is not forwarded; whether such a message, never
+					// acknowledged and still owned by its sender, is handed on is a matter of timing that
+					// no property fixes: DESIGN 14.3)
+					for k := 3 + r.Intn(25); k > 0; k-- {
+						data = append(data, wPub{qos: 0, topic: []byte(pick(r, g.names)), payload: []byte{byte(k)}}.encode()...)
+					}
+					if r.Intn(2) == 0 {
+						data = append(data, 0xe0, 0x00)
+					}
+					g.emit("rawclose %d %s", c.id, hexOf(data))
+					g.remove(c)
+					break
+				}
 				g.emit("close %d", c.id)
 				g.remove(c)
 			case pickW(p.wSrvPub):
